@@ -34,7 +34,7 @@ def run_demo(wt, k):
     if not pkgname.endswith("_test") and pkgname not in ("main",) and "zrnt/eth2" in src and "OUT" not in src:
         pass
     rc, out = sh("go test -mod=mod -vet=off -count=1 -tags mutdemo,verif ./OUT/%s/ 2>&1" % k, wt, timeout=1200)
-    if "main module" in out or "does not contain package" in out or "no Go files" in out or "no test files" in out or "cannot find package" in out or "build constraints exclude" in out or "is not in std" in out or "directory prefix" in out:
+    if "[build failed]" in out or "main module" in out or "does not contain package" in out or "no Go files" in out or "no test files" in out or "cannot find package" in out or "build constraints exclude" in out or "is not in std" in out or "directory prefix" in out:
         # copy next to the package it names in its header comment, default eth2/beacon
         m = re.search(r"(eth2/[\w/]+)/zz_\w*test\.go", src)
         target_dir = m.group(1) if m else "eth2/beacon"
